@@ -167,6 +167,9 @@ class Ctx:
         if tie not in self.broken:
             self.broken.append(tie)
 
+    def is_known(self, key: str) -> bool:
+        return any(k["property"] == self.pid and k.get("status") == "open" and re.fullmatch(k["key"], key) for k in self.known)
+
     def fail(self, key: str, what: str, replay: dict):
         """A failure of the PROPERTY on the real code.  `key` identifies the finding class."""
         for k in self.known:
